@@ -84,7 +84,7 @@ func resolverCombo(i int) (protodesc.Resolver, protoregistry.MessageTypeResolver
 }
 
 func runC16(ctx *Ctx) {
-	types := model.Types()
+	types := model.TypesNoBulk()
 	per := func(q, th int) int { return ctx.N(q, th)/ctx.NShards + 1 }
 	ctx.CheckRapid("pack", per(100000, 800000), func(rt *rapid.T) *Case {
 		c := &Case{Sub: "pack", Args: map[string]string{}}
@@ -323,7 +323,7 @@ func sizedMessage(src string, size int, fill byte) proto.Message {
 		return b
 	}
 	if src != "wrapper" {
-		for _, t := range model.Types() {
+		for _, t := range model.TypesNoBulk() {
 			fds := t.Desc.Fields()
 			for i := 0; i < fds.Len(); i++ {
 				fd := fds.Get(i)
